@@ -156,7 +156,7 @@ def run_body(task):
             _verif.emit('dread', t=task.tid, d=d.tid, ok=1, v=v)
             vals.append(v)
         _emit_logs(task)
-        if task.beh.split()[0] == 'raise':
+        if task.beh.split()[0] == 'raise' or task.tid in ((ctx or {}).get('failnow') or ()):
             raise RuntimeError(f'boom {task.tid}')
         value = [task.tid, (ctx or {}).get('epoch', -1), vals]
     except BaseException:
@@ -182,12 +182,12 @@ def ctx_digest(ctx) -> str:
 
 def _filter2(self, context):
     """per-parameter subset"""
-    return {k: v for k, v in context.items() if k in ('epoch', f'k{self.tid}')}
+    return {k: v for k, v in context.items() if k in ('epoch', 'failnow', f'k{self.tid}')}
 
 
 def _filter3(self, context):
     """a projection that is not idempotent: applying it twice gives something else"""
-    return {'epoch': context.get('epoch'), 'sel': sorted(context), 'n': len(context)}
+    return {'epoch': context.get('epoch'), 'failnow': context.get('failnow'), 'sel': sorted(context), 'n': len(context)}
 
 
 def ctx_filter_for(y):
@@ -232,12 +232,16 @@ for _y in (1, 2, 3):
 # ---- "twins": tasks of one type without a tid field, told apart only by the value (or the type of the value) of
 # their single parameter.  1, 1.0 and True are equal in Python but are different parameter values; the two dicts
 # differ only in one value.  The spec-level task id is derived from the parameter.
-TWIN_VALUES = [1, 1.0, True, {'depth': 1, 'kind': 'tree'}, {'depth': 2, 'kind': 'tree'}]
+TWIN_VALUES = [1, 1.0, True, {'depth': 1, 'kind': 'tree'}, {'depth': 2, 'kind': 'tree'}, float('nan')]
 
 
 def twin_id(x):
     from frozendict import frozendict
     for i, v in enumerate(TWIN_VALUES):
+        if isinstance(v, float) and v != v:
+            if isinstance(x, float) and x != x:
+                return i + 1
+            continue
         if isinstance(v, dict):
             if isinstance(x, (dict, frozendict)) and dict(x) == v and all(type(x[k]) is type(v[k]) for k in v):
                 return i + 1
